@@ -91,4 +91,109 @@ theorem upload_ok_visible (n : Nat) (b : Block) (k : Option Nat) (s : Bucket)
   exact present_after_puts _ s (uploadOps_isPut _ n b) (n, metaName) b.metaObj (by
     simp [uploadOps, codeUploadOrder, phaseOps])
 
+-- ---------------------------------------------------------------- whose objects are in the bucket
+
+/-- every object in the bucket belongs to a local block -/
+def KeysLocal (locals : List LBlock) (s : Bucket) : Prop := ∀ p ∈ s, ∃ b ∈ locals, b.id = p.1.1
+
+theorem keysLocal_apply_put {locals : List LBlock} {s : Bucket} (h : KeysLocal locals s) (k : Key) (o : Obj)
+    (hk : ∃ b ∈ locals, b.id = k.1) : KeysLocal locals (apply s (.put k o)) := by
+  intro p hp
+  simp only [apply, put, del, List.mem_cons, List.mem_filter] at hp
+  rcases hp with rfl | ⟨hp, _⟩
+  · exact hk
+  · exact h p hp
+
+theorem keysLocal_applyAll {locals : List LBlock} : ∀ (ops : List Op) (s : Bucket), KeysLocal locals s →
+    (∀ op ∈ ops, ∃ k o, op = .put k o ∧ ∃ b ∈ locals, b.id = k.1) → KeysLocal locals (applyAll s ops)
+  | [], s, h, _ => by simpa [applyAll] using h
+  | op :: ops, s, h, hops => by
+    obtain ⟨k, o, rfl, hk⟩ := hops op (by simp)
+    rw [applyAll_cons]
+    exact keysLocal_applyAll ops _ (keysLocal_apply_put h k o hk) (fun op hop => hops op (List.mem_cons_of_mem _ hop))
+
+theorem uploadOps_keys (order : List String) (n : Nat) (b : Block) :
+    ∀ op ∈ uploadOps order n b, ∃ f o, op = .put (n, f) o := by
+  intro op hop
+  obtain ⟨ph, _, hin⟩ := List.mem_flatMap.mp hop
+  unfold phaseOps at hin
+  split at hin
+  · obtain ⟨p, _, rfl⟩ := List.mem_map.mp hin; exact ⟨_, _, rfl⟩
+  · simp at hin; subst hin; exact ⟨_, _, rfl⟩
+  · simp at hin; subst hin; exact ⟨_, _, rfl⟩
+  · simp at hin
+
+theorem keysLocal_upload {locals : List LBlock} {b : LBlock} (hb : b ∈ locals) (k : Option Nat) (s : Bucket)
+    (h : KeysLocal locals s) : KeysLocal locals (exec k (uploadScript codeUploadOrder b.id b.files) s).bkt := by
+  obtain ⟨j, hj⟩ := exec_bkt k (uploadScript codeUploadOrder b.id b.files) s
+  rw [hj, muts_uploadScript]
+  apply keysLocal_applyAll _ s h
+  intro op hop
+  obtain ⟨f, o, rfl⟩ := uploadOps_keys _ _ _ op (List.mem_of_mem_take hop)
+  exact ⟨_, _, rfl, b, hb, rfl⟩
+
+theorem mem_dirsOf : ∀ {s : Bucket} {n : Nat}, n ∈ dirsOf s → ∃ p ∈ s, p.1.1 = n
+  | [], n, h => by simp [dirsOf] at h
+  | ((m, f), o) :: s, n, h => by
+    simp only [dirsOf, List.mem_cons, List.mem_filter] at h
+    rcases h with rfl | ⟨h, _⟩
+    · exact ⟨_, List.mem_cons_self, rfl⟩
+    · obtain ⟨p, hp, e⟩ := mem_dirsOf h
+      exact ⟨p, List.mem_cons_of_mem _ hp, e⟩
+
+/-- ranges that all belong to local blocks -/
+def LocalRanges (locals : List LBlock) (rs : List (Int × Int)) : Prop :=
+  ∀ r ∈ rs, ∃ b ∈ locals, (b.minT, b.maxT) = r
+
+/-- no two different local blocks overlap in time -/
+def NoOverlap (locals : List LBlock) : Prop :=
+  ∀ a ∈ locals, ∀ b ∈ locals, (a.minT, a.maxT) ≠ (b.minT, b.maxT) → ¬ (a.minT ≤ b.minT ∧ b.minT < a.maxT)
+
+theorem not_overlapping_of_local {locals : List LBlock} (hno : NoOverlap locals) {rs : List (Int × Int)}
+    (h : LocalRanges locals rs) : overlapping rs = false := by
+  simp only [overlapping, List.any_eq_false, List.any_eq_true, decide_eq_true_eq, not_exists, not_and]
+  intro a ha b hb hne
+  obtain ⟨ba, hba, ea⟩ := h a ha
+  obtain ⟨bb, hbb, eb⟩ := h b hb
+  have := hno ba hba bb hbb (by rw [ea, eb]; exact hne)
+  rw [← ea, ← eb]
+  simpa using this
+
+theorem rangeOf_local {locals : List LBlock} {n : Nat} (h : ∃ b ∈ locals, b.id = n) :
+    ∃ r, rangeOf locals n = some r ∧ ∃ b ∈ locals, (b.minT, b.maxT) = r := by
+  obtain ⟨b, hb, e⟩ := h
+  unfold rangeOf
+  cases hf : locals.find? (·.id = n) with
+  | none =>
+    have := List.find?_eq_none.mp hf b hb
+    simp [e] at this
+  | some b' => exact ⟨_, rfl, b', List.mem_of_find?_eq_some hf, rfl⟩
+
+theorem collectRanges_some {locals : List LBlock} (s : Bucket) : ∀ (ns : List Nat),
+    (∀ n ∈ ns, (get s (n, metaName)).isSome = true ∧ ∃ b ∈ locals, b.id = n) →
+    ∃ rs, collectRanges locals s ns = some rs ∧ LocalRanges locals rs
+  | [], _ => ⟨[], rfl, by intro r hr; simp at hr⟩
+  | n :: ns, h => by
+    obtain ⟨hm, hl⟩ := h n (by simp)
+    obtain ⟨r, hr, hrl⟩ := rangeOf_local hl
+    obtain ⟨rs, hrs, hrsl⟩ := collectRanges_some s ns (fun m hm' => h m (List.mem_cons_of_mem _ hm'))
+    refine ⟨r :: rs, by simp [collectRanges, hm, hr, hrs], ?_⟩
+    intro x hx
+    rcases List.mem_cons.mp hx with rfl | hx'
+    · exact hrl
+    · exact hrsl x hx'
+
+/-- the repaired lazy sync of the overlap checker always succeeds on a bucket that holds only
+    objects of local blocks, and yields ranges of local blocks -/
+theorem checkerSync_some {locals : List LBlock} {s : Bucket} (hk : KeysLocal locals s) :
+    ∃ rs, checkerSyncWith true locals s = some rs ∧ LocalRanges locals rs := by
+  unfold checkerSyncWith
+  apply collectRanges_some
+  intro n hn
+  simp only [Bool.not_true, Bool.false_or, List.mem_filter] at hn
+  refine ⟨hn.2, ?_⟩
+  obtain ⟨p, hp, e⟩ := mem_dirsOf hn.1
+  obtain ⟨b, hb, e'⟩ := hk p hp
+  exact ⟨b, hb, by rw [e', e]⟩
+
 end Thanos.Shipper
